@@ -8,6 +8,9 @@ def install_sim_models(ip):
     ip.models["jax.random.split"] = lambda ip_, key, num=2: [ip_.uf("split", ip_.to_U(key), z3.IntVal(i)) for i in range(ip_.conc_int(num))]
 
 
+_ASSIGNMENT = {}  # unit tag -> seed-child assignment observed on the first explored path (paths differ only in unspecified iteration orders)
+
+
 def sim_unit(shape, auto_update, skip):
     tag = f"{shape}.auto_{'on' if auto_update else 'off'}" + (f".skip_{'_'.join(skip)}" if skip else "")
 
@@ -49,9 +52,10 @@ def sim_unit(shape, auto_update, skip):
             c.oblige(f"{nm}.skipped_untouched", val(nm).eq(old(nm)))
 
         if shape == "hier":
-            (kept if "tau" in skip else lambda n_: drawn(n_, "Ptau"))("tau")
-            (kept if "mu" in skip else lambda n_: drawn(n_, "Pmu", val("tau")))("mu")
-            (kept if "y" in skip else lambda n_: drawn(n_, "Lik", val("mu"), f("f_sigma", val("tau"))))("y")
+            sk = lambda nm: any(x in skip for x in (nm, f"{nm}_log_prob", f"{nm}_var_value"))  # noqa: E731  (variable, its distribution node, its evaluation node)
+            (kept if sk("tau") else lambda n_: drawn(n_, "Ptau"))("tau")
+            (kept if sk("mu") else lambda n_: drawn(n_, "Pmu", val("tau")))("mu")
+            (kept if sk("y") else lambda n_: drawn(n_, "Lik", val("mu"), f("f_sigma", val("tau"))))("y")
         elif shape == "diamond":
             (kept if "a" in skip else lambda n_: drawn(n_, "Pa"))("a")
             (kept if "y" in skip else lambda n_: drawn(n_, "Lik", f("f_left", val("a")), f("f_right", val("a"))))("y")
@@ -60,6 +64,9 @@ def sim_unit(shape, auto_update, skip):
             (kept if "c" in skip else lambda n_: drawn(n_, "Pc"))("c")
             (kept if "y" in skip else lambda n_: drawn(n_, "Lik", val("b"), val("c")))("y")
         c.oblige("distinct_seed_children", len(set(used)) == len(used))
+        # "the result is determined by the seed": which child of the seed a variable gets must not depend on an unspecified iteration order
+        first = _ASSIGNMENT.setdefault(tag, list(used))
+        c.oblige("seed_child_assignment_independent_of_unspecified_iteration_order", first == list(used), this_path=str(used), first_path=str(first))
         ip.call(method(ip, model, "update"), [], {})
         c.oblige("coherent_after_update", not any(ip.truth(ip.getattr(n_, "outdated")) is True for n_ in model.f["_nodes"].values()))
         if shape == "hier" and "y" not in skip:
@@ -73,6 +80,8 @@ for _s in SHAPES:
 sim_unit("hier", False, ("mu",))
 sim_unit("hier", True, ("tau",))
 sim_unit("flat", False, ("y",))
+sim_unit("hier", False, ("mu_log_prob",))
+sim_unit("hier", True, ("y_var_value",))
 
 
 @unit("C17.sample_shape", "C17", [f"{M}::Model.simulate"], assumptions=["value of rank 3; event rank 0/1, batch rank 0/1 (the four combinations)"])
@@ -100,3 +109,54 @@ def u_sample_shape(ip):
         want = dims[: 3 - len(ev) - len(ba)]
         tag = f".event{len(ev)}.batch{len(ba)}"
         c.oblige("sample_shape_is_leading_part" + tag, isinstance(got.get("shape"), tuple) and len(got["shape"]) == len(want) and all(a is b for a, b in zip(got["shape"], want)))
+
+
+def transformed_unit(entry, auto_update):
+    from contracts.graph import bijector_class, bijector_instance, dist_fn_tfp, install_tfp_models
+
+    @unit(f"C17.transformed.{entry}.auto_{'on' if auto_update else 'off'}", "C17", [f"{M}::Model.simulate", f"{M}::Model._build_simulation_graph", f"{N}::Var.transform",
+                                                                                   f"{N}::_transform_var_with_bijector_instance", f"{N}::_transform_var_with_bijector_class"],
+          assumptions=["graph: tau ~ Ptau; sigma ~ D(loc = f_loc(tau)) re-parameterised with Var.transform; x ~ Lik(sigma) - the transformed variable's own prior sits deeper in the graph "
+                       "than the child's distribution", "A-TFP (Invert, TransformedDistribution.sample = forward of the base sample)"])
+    def u(ip, entry=entry, auto_update=auto_update):
+        """with a re-parameterised variable in the middle of a hierarchy, simulate() still draws ancestrally: the unconstrained variable from
+        its transformed distribution at the NEW hyper-parameter, the original variable is its bijector image, and the child is drawn at the NEW
+        value of the original variable."""
+        c = ip.ctx
+        install_graph_models(ip)
+        install_tfp_models(ip)
+        install_sim_models(ip)
+        g = G(ip)
+        tau = g.var("tau", dist=g.dist("Ptau"), parameter=True)
+        loc = g.calc("f_loc", tau, name="loc")
+        d = ip.call(g.Dist, [dist_fn_tfp("D")], {"rate": loc})
+        sigma = g.var("sigma", dist=d, parameter=True)
+        if entry == "instance":
+            t = ip.call(method(ip, sigma, "transform"), [bijector_instance(ip, "B")], {})
+        else:
+            t = ip.call(method(ip, sigma, "transform"), [], {})
+        x = g.var("x", dist=g.dist("Lik", sigma), observed=True)
+        model = g.build(x)
+        ip.setattr(model, "auto_update", auto_update)
+        seed = z3.Const("seed", U)
+        ip.call(method(ip, model, "simulate"), [seed], {})
+        ip.call(method(ip, model, "update"), [], {})
+        V = model.f["_vars"]
+        val = lambda nm: ip.to_U(ip.getattr(V[nm], "value"))  # noqa: E731
+        new_tau, new_t, new_sigma, new_x = val("tau"), val("sigma_transformed"), val("sigma"), val("x")
+        c.oblige("tau_redrawn", new_tau.decl().name().startswith("draw_Ptau"))
+        # original variable = bijector image of the unconstrained one (current bijector parameters)
+        btag = "B" if entry == "instance" else "default_D"
+        bparams = [] if entry == "instance" else [ip.uf("f_loc", new_tau)]
+        c.oblige("original_is_bijector_image_of_new_unconstrained_value", new_sigma.eq(ip.uf(f"fwd_{btag}", *bparams, new_t)))
+        # the unconstrained variable is drawn from the transformed distribution at the NEW hyper-parameter: inverse-bijector image of a base draw
+        base_draw_ok = new_t.decl().name().startswith(f"inv_{btag}") and new_t.arg(new_t.num_args() - 1).decl().name().startswith("draw_D") and \
+            new_t.arg(new_t.num_args() - 1).arg(0).eq(ip.uf("f_loc", new_tau))
+        c.oblige("unconstrained_variable_drawn_at_new_hyperparameter", bool(base_draw_ok), term=str(new_t))
+        c.oblige("child_drawn_at_new_value_of_original_variable", new_x.decl().name().startswith("draw_Lik") and new_x.arg(0).eq(new_sigma))
+    return u
+
+
+for _e in ("instance", "default"):
+    for _a in (True, False):
+        transformed_unit(_e, _a)
